@@ -20,6 +20,15 @@ from amoco.arch.core import *
 
 ISPECS = []
 
+
+def getreg(obj, n, bank=env.R):
+    """register n of bank R (64-bit) or E (32-bit sub-registers): eBPF has 11
+    registers r0-r10, the other values of the 4-bit field are invalid."""
+    if n >= len(bank):
+        raise InstructionError(obj)
+    return bank[n]
+
+
 # ALU_32 instructions:
 @ispec("64>[ 001 s 0000 dreg(4) sreg(4) off(16) ~imm(32) ]", mnemonic="add")
 @ispec("64>[ 001 s 1000 dreg(4) sreg(4) off(16) ~imm(32) ]", mnemonic="sub")
@@ -36,8 +45,8 @@ ISPECS = []
 @ispec("64>[ 001 s 0011 dreg(4) sreg(4) off(16) ~imm(32) ]", mnemonic="arsh")
 @ispec("64>[ 001 s 1011 dreg(4) sreg(4) off(16) ~imm(32) ]", mnemonic="end")
 def ebpf_alu_(obj, s, dreg, sreg, off, imm):
-    dst = env.E[dreg]
-    src = env.cst(imm.int(-1), 32) if s == 0 else env.E[sreg]
+    dst = getreg(obj, dreg, env.E)
+    src = env.cst(imm.int(-1), 32) if s == 0 else getreg(obj, sreg, env.E)
     src.sf = True
     if obj.mnemonic in ("or", "and", "xor", "neg", "end"):
         src.sf = False
@@ -61,8 +70,8 @@ def ebpf_alu_(obj, s, dreg, sreg, off, imm):
 @ispec("64>[ 111 s 0011 dreg(4) sreg(4) off(16) ~imm(32) ]", mnemonic="arsh")
 @ispec("64>[ 111 s 1011 dreg(4) sreg(4) off(16) ~imm(32) ]", mnemonic="end")
 def ebpf_alu_(obj, s, dreg, sreg, off, imm):
-    dst = env.R[dreg]
-    src = env.cst(imm.int(-1), 32).zeroextend(64) if s == 0 else env.R[sreg]
+    dst = getreg(obj, dreg)
+    src = env.cst(imm.int(-1), 32).zeroextend(64) if s == 0 else getreg(obj, sreg)
     src.sf = True
     if obj.mnemonic in ("or", "and", "xor", "neg", "end"):
         src.sf = False
@@ -79,8 +88,8 @@ def ebpf_alu_(obj, s, dreg, sreg, off, imm):
 @ispec("64>[ 101 s 0110 dreg(4) sreg(4) ~off(16) ~imm(32) ]", mnemonic="jsgt")
 @ispec("64>[ 101 s 1110 dreg(4) sreg(4) ~off(16) ~imm(32) ]", mnemonic="jsge")
 def ebpf_jmp_(obj, s, dreg, sreg, off, imm):
-    dst = env.R[dreg]
-    src = env.cst(imm.int(-1), 64) if s == 0 else env.R[sreg]
+    dst = getreg(obj, dreg)
+    src = env.cst(imm.int(-1), 64) if s == 0 else getreg(obj, sreg)
     offset = env.cst(off.int(-1), 64)
     obj.operands = [dst, src, offset]
     obj.type = type_control_flow
@@ -107,8 +116,8 @@ def ebpf_ldx_(obj, sz, dreg, sreg, off, imm):
     size = {0: 32, 1: 16, 2: 8, 3: 64}[sz]
     if imm != 0:
         raise InstructionError(obj)
-    dst = env.R[dreg]
-    src = env.R[sreg]
+    dst = getreg(obj, dreg)
+    src = getreg(obj, sreg)
     src = env.mem(src + off.int(-1), size)
     obj.operands = [dst, src]
     obj.type = type_data_processing
@@ -125,9 +134,9 @@ def ebpf_ldx_(obj, sz, dreg, sreg, off, imm):
 @ispec("64>[ 110 11=sz(2) 110 dreg(4) sreg(4) ~off(16) ~imm(32) ]", mnemonic="stxdw")
 def ebpf_st_(obj, sz, dreg, sreg, off, imm):
     size = {0: 32, 1: 16, 2: 8, 3: 64}[sz]
-    dst = env.mem(env.R[dreg] + off.int(-1), size)
+    dst = env.mem(getreg(obj, dreg) + off.int(-1), size)
     if obj.mnemonic == "stx":
-        src = env.R[sreg]
+        src = getreg(obj, sreg)
         if imm != 0:
             raise InstructionError(obj)
     else:
@@ -146,8 +155,8 @@ def ebpf_xadd_(obj, sz, dreg, sreg, off, imm):
     size = {0: 32, 1: 16, 2: 8, 3: 64}[sz]
     if (size < 32) or imm != 0:
         raise InstructionError(obj)
-    dst = env.mem(env.R[dreg] + off.int(-1), size)
-    src = env.R[sreg][0:size]
+    dst = env.mem(getreg(obj, dreg) + off.int(-1), size)
+    src = getreg(obj, sreg)[0:size]
     obj.operands = [dst, src]
     obj.type = type_data_processing
 
@@ -158,7 +167,7 @@ def ebpf_xadd_(obj, sz, dreg, sreg, off, imm):
     mnemonic="lddw",
 )
 def ebpf_ld64_(obj, dreg, sreg, off, imm, unused, imm2):
-    dst = env.R[dreg]
+    dst = getreg(obj, dreg)
     src = env.cst(imm | (imm2 << 32), 64)
     obj.operands = [dst, src]
     obj.type = type_data_processing
@@ -178,7 +187,7 @@ def ebpf_ld_(obj, sz, dreg, sreg, off, imm, _abs):
     dst = env.R[0]
     adr = env.reg("#skb", 64)
     if not _abs:
-        adr += env.R[sreg]
+        adr += getreg(obj, sreg)
     src = env.mem(adr, size, disp=imm.int(-1))
     obj.operands = [dst, src]
     obj.type = type_data_processing
